@@ -15,6 +15,8 @@ m["confirmed_by_me"]={"suite_passes_with_patch":True,"demo_fails_with_patch":Tru
   "how":"tools/seedtest.sh: scratch worktree of /repo HEAD, git apply patch.diff, go test -vet=off -count=1 ./..., demo/run.sh before and after"}
 m["caught_by"]=sys.argv[3].split()
 m["note"]=sys.argv[4]
+import subprocess
+m["base_commit"]=subprocess.check_output(["git","-C","/repo","rev-parse","--short","HEAD"]).decode().strip()
 json.dump(m,open(sys.argv[2],"w"),indent=1)
 PY
 du -sh "$DST" | cut -f1
